@@ -137,7 +137,14 @@ def check(ctx):
     for fid in [k for k in ctx.prog.fns if k == "<may::io::sys::cancel::CancelIoImpl as may::cancel::CancelIo>::cancel"]:
         ctx.order(fid, Call(AO + "take", on="may::io::sys::cancel::CancelIoImpl.0", transitive=False), Call(AO + "take", on=ED + ".co", transitive=False), "io-cancel/registration-then-co",
                   "io cancel takes its registration, then the blocked coroutine")
-        ctx.guarded(fid, Agg(r"(std|core)::option::Option", "Some", transitive=False), variant_of_call(AO + "take", "Some"), "io-cancel/some-only-if-resumed",
+        g0 = ctx.prog.fn(fid)
+        def co_taken(a, g0=g0):
+            # the Some edge of the take on EventData.co (not of the take on the registration slot)
+            if not (a.kind == "variant" and a.name == "Some"): return False
+            o = simplify(a.origin)
+            while o[0] in ("field", "downcast", "deref", "ref"): o = simplify(o[1])
+            return o[0] == "call" and re.fullmatch(AO + "take", o[2] or "") is not None and receiver_leaf(g0, g0.term(o[1])) == ED + ".co"
+        ctx.guarded(fid, Agg(r"(std|core)::option::Option", "Some", transitive=False), co_taken, "io-cancel/some-only-if-resumed",
                     "io cancel reports success only when it really took and resumed the coroutine (otherwise the park path is tried)", pred_label="edge `co.take()` is Some")
 
     # ---- arm/publish: a subscriber that arms an io timer publishes through store_co (deadline re-check)
@@ -214,3 +221,4 @@ def check(ctx):
     ctx.import_rules("C17", r"^done/result-after-resume")
     shared.io_timeout_direction_rules(ctx)
     ctx.import_rules("C17", r"^fwd/|^del-io-timer/|^co-io-result/")
+    shared.selector_serves_timeout_wakeups(ctx)
